@@ -107,6 +107,11 @@ func RunSingle(chk *Check, tier string, seed int64, index int) int {
 			continue
 		}
 		fmt.Printf("VIOLATION property=%s replay=(this) fingerprint=%s what=%s\n", v.Property, v.Fingerprint, v.What)
+		if os.Getenv("VERIF_REPLAY_DETAIL") != "" {
+			if b, err := json.MarshalIndent(v.Detail, "", " "); err == nil {
+				fmt.Printf("detail: %s\n", b)
+			}
+		}
 		code = 1
 	}
 	b, _ := json.MarshalIndent(rec.Counters, "", " ")
